@@ -149,6 +149,44 @@ Example C03_trace_connect_fails :
   map (fun e => call_fn (fst e)) (fst (run (wrapper C EC cfg_dflt 11) connect_fails 0))
   = ["fopen"; "ttyname_r"; "getcwd"; "<pure>"; "getpid"; "socket"; "connect"; "close"; "<exec>"]%string.
 Proof. vm_compute. reflexivity. Qed.
+(** a healthy world meets the hypotheses too: short files (every third call position reports EOF to a line read), every process a child of pid 0, all other calls succeed;
+    the configuration walks the process tree twice (exclude_spawns_of, rpname) and writes to a file whose write fails *)
+Definition healthy : oracle := fun i cl =>
+  match cl with
+  | CFgets _ | CGetline _ => if Nat.eqb (Nat.modulo i 3) 0 then OErr 0 else OOk 1 [x50; x50; x69; x64; x3a; x09; x30; x0a]     (* "PPid:\t0\n" *)
+  | CFread _ _ => OOk 1 (bs "1 (init) S 0 0 0 0")
+  | CGetpid | CGetppid => OOk 7 []
+  | CWrite _ _ => OErr 28
+  | _ => OOk 1 (bs "/x")
+  end.
+Definition cfg_walks : option (list (list byte)) -> config := fun _ =>
+  {| cf_filtering := true; cf_chain := bs "exclude_spawns_of:cron"; cf_format := bs "%{rpname} %{cwd}"; cf_logmax := 16383; cf_dsmax := 2047;
+     cf_output := bs "file"; cf_output_arg := bs "/var/log/x.log"; cf_ident := bs "snoopy"; cf_errlog := false |}.
+Example C03_reaches_exec_healthy_world :
+  exists pre res, run (wrapper C EC cfg_walks 11) healthy 0 = (pre ++ [(CRealExec, res)], Some res) /\ Forall (fun e => no_exec (fst e)) pre.
+Proof.
+  apply (C03_reaches_exec cfg_walks healthy 3 1 11 (fun _ => 0%Z) (fun _ => O)).
+  - intros i cl Hl. pose proof (Nat.mod_upper_bound i 3 ltac:(discriminate)) as Hb.
+    assert (G : exists j, (j < 3)%nat /\ Nat.eqb (Nat.modulo (i + j) 3) 0 = true).
+    { destruct (Nat.modulo i 3) as [|[|[|k]]] eqn:E.
+      - exists 0%nat. split; [repeat constructor|]. rewrite Nat.add_0_r, E. reflexivity.
+      - exists 2%nat. split; [repeat constructor|]. rewrite Nat.add_mod by discriminate. rewrite E. reflexivity.
+      - exists 1%nat. split; [repeat constructor|]. rewrite Nat.add_mod by discriminate. rewrite E. reflexivity.
+      - exfalso. apply (Nat.lt_irrefl 3). eapply Nat.le_lt_trans; [|exact Hb]. do 3 apply le_n_S. apply Nat.le_0_l. }
+    destruct G as [j [Hj He]]. exists j. split; [exact Hj|]. destruct cl; try discriminate; cbn [healthy]; rewrite He; reflexivity.
+  - intros p H. exfalso. apply H. reflexivity.
+  - intros. constructor.
+  - intros i pid comm pp H. vm_compute in H. injection H as _ <-. reflexivity.
+  - intros i pid v H. cbn [healthy odata] in H. destruct (Nat.eqb (Nat.modulo i 3) 0); vm_compute in H; [discriminate|]. injection H as <-. reflexivity.
+  - repeat constructor.
+  - repeat constructor.
+  - vm_compute. discriminate.
+Qed.
+Example C03_trace_healthy_world :
+  map (fun e => call_fn (fst e)) (fst (run (wrapper C EC cfg_walks 11) healthy 0))
+  = ["fopen"; "fgets"; "fgets"; "fgets"; "fclose"; "getppid"; "fopen"; "fread"; "fclose"; "getpid"; "fopen"; "getline"; "fclose"; "fopen"; "getline"; "getline"; "fclose"; "<pure>";
+     "getcwd"; "open"; "write"; "close"; "<exec>"]%string.
+Proof. vm_compute. reflexivity. Qed.
 Example C03_enumerated_nonvacuous : enumerated {| w_sink := SkDgramFullUnread; w_fd1 := FdPlain; w_fd2 := FdPlain; w_nss_local := true |} = true.
 Proof. reflexivity. Qed.
 (** the table does NOT clear the states the property leaves out: a FIFO as file sink, the caller's stdout as a reader-less pipe *)
